@@ -279,6 +279,14 @@ func vRaceSession(k *vCaller, w vRaceWorkload, cycle int, dir string, reconfigur
 	k.must("WriteControl", &wc, &okay)
 	nap()
 	k.must("SetExperimentStateLabel", &StateLabelConfig{Label: fmt.Sprintf("state%d", cycle), WaitForError: true}, &okay)
+	// the documented fire-and-forget mode of the state label, and status reads right behind it
+	k.must("SetExperimentStateLabel", &StateLabelConfig{Label: fmt.Sprintf("async%d", cycle), WaitForError: false}, &okay)
+	for i := 0; i < 4; i++ {
+		var zz int
+		var ss string
+		k.call("ReadComment", &zz, &ss) // there may be no comment yet: the reply does not matter here
+		time.Sleep(time.Duration(50+r.Intn(300)) * time.Microsecond)
+	}
 	comment := "a comment"
 	k.must("WriteComment", &comment, &okay)
 	zero := 0
